@@ -84,6 +84,12 @@ def ta_state_findings(rec, cfg, machine, prev_grants=None):
             ov = E & parse_set(c['cpus'])
             if ov:
                 sig = 'overlapping-container-has-no-grant' if c['id'] not in grants else 'exclusive-in-other-told-cpuset'
+                if c['id'] in grants:
+                    # K2: the overlapping container sits in a strict descendant of the slicing grant's pool whose shared
+                    # CPUs the grant took: it has nowhere to go; a revert of a rejected update re-pins it to them
+                    hp = grants[c['id']]['pool']
+                    if hp != g['pool'] and g['pool'] in ancestors(hp) and not (set(pools[hp]['shar']) - E - set().union(*[set(x['exclusive']) for x in gl])):
+                        sig = 'descendant-of-slicing-grant'
                 out.append(F('C01', 'exclusive-not-in-others-cpuset', sig,
                              'exclusive CPUs %s of %s are in the allowed cpuset %s of live container %s' % (sorted(ov), g['id'], c['cpus'], c['id']), seq))
     for c in cache.values():
@@ -454,6 +460,14 @@ def c12_findings(ev, rec, optout_cpu, optout_mem, told_mems):
     if rec['op'] == 'CreateContainer' and ((ev.get('ctr') or {}).get('res') or {}).get('mems'):
         # what the runtime created the container with is what "unchanged" refers to
         told_mems.setdefault(ev['ctr']['id'], fmt_set(parse_set(ev['ctr']['res']['mems'])))
+    if rec['op'] == 'Synchronize':
+        # containers the plugin first hears of in a listing: the listing carries what the runtime has
+        for lc in ev.get('ctrs') or []:
+            r0 = lc.get('res') or {}
+            if r0.get('mems'):
+                told_mems.setdefault(lc['id'], fmt_set(parse_set(r0['mems'])))
+            if r0.get('cpus'):
+                told_mems.setdefault(('cpus', lc['id']), fmt_set(parse_set(r0['cpus'])))
     if rec['op'] == 'CreateContainer' and ((ev.get('ctr') or {}).get('res') or {}).get('cpus'):
         told_mems.setdefault(('cpus', ev['ctr']['id']), fmt_set(parse_set(ev['ctr']['res']['cpus'])))
     items = []
